@@ -27,12 +27,12 @@ func init() {
 }
 
 type c09User struct {
-	name, role     string
-	ticket, pw     string
-	salt           string
-	iters, keylen  int
-	pub            *[32]byte
-	priv           *[64]byte
+	name, role    string
+	ticket, pw    string
+	salt          string
+	iters, keylen int
+	pub           *[32]byte
+	priv          *[64]byte
 }
 
 // c09KS is the key store of the simulated realm.
